@@ -157,7 +157,7 @@ def suite(W, case):
     from pbt.props.c06 import reachable
     S = W.S
     n = len(S.obs)
-    seed = case["seed"]
+    seed = numpy.int64(case["seed"]) if case.get("np_seed") else case["seed"]      # seeds are integers: Python int or numpy integer
     k = case["nsim"]
     t = {"poisson_N": ("analytic", lambda: P.number_test(W.fa(), W.catalog())),
          "nbd_N": ("analytic", lambda: Bn.negative_binomial_number_test(W.fa(), W.catalog(), float(S.rates.sum()) * 3 + 1)),
@@ -190,7 +190,10 @@ def suite(W, case):
 
 def run_suite(ctx, W, case, tag):
     out = {}
+    import zlib
     for name, (kind, f) in suite(W, case).items():
+        # a different state of the global generator before every call and every variant: a result may depend on its seed only
+        numpy.random.seed(zlib.crc32(("%s/%s" % (tag, name)).encode()))
         o = call(f)
         if not o.ok:
             ctx.count("not_produced:%s" % name)
@@ -334,7 +337,8 @@ def cases(draw):
     if draw(st.integers(0, 3)):
         setup["obs"] = setup["obs"] + extra
     n = len(setup["obs"])
-    return {"setup": setup, "rates_b": rates_b, "cats": cats, "seed": draw(st.sampled_from([0, 1, 7, 2**31 - 1])), "nsim": draw(st.integers(1, 4)),
+    return {**({"np_seed": True} if draw(st.integers(0, 2)) == 0 else {}),
+            "setup": setup, "rates_b": rates_b, "cats": cats, "seed": draw(st.sampled_from([0, 1, 7, 2**31 - 1])), "nsim": draw(st.integers(1, 4)),
             "perm_events": list(draw(st.permutations(list(range(n))))), "perm_cats": list(draw(st.permutations(list(range(J))))),
             "perm_cells": list(draw(st.permutations(list(range(nc)))))}
 
